@@ -144,6 +144,8 @@ type JobSpec struct {
 	// SecondPB: a second, plugin-free parser.Builder over the SAME lexer.Builder builds a parser for input 0
 	// after all the first builder's parsers were built
 	SecondPB bool `json:"second_pb,omitempty"`
+	// SharedRecompile: the recompile tasks share one configured compiler per configuration
+	SharedRecompile bool `json:"shared_recompile,omitempty"`
 	// FillSources: the job completes every source map it gets the way a host does (file name, source name)
 	FillSources bool `json:"fill_sources,omitempty"`
 	// FirstCompileConcurrent: no part compiles anything; the trees meet their first compilations in the recompile tasks
@@ -361,6 +363,7 @@ func GenJob(seed uint64) *JobSpec {
 	}
 	j.SecondPB = ch.Bool(1, 4)
 	j.FillSources = ch.Bool(1, 3)
+	j.SharedRecompile = ch.Bool(1, 3)
 	if ch.Bool(2, 3) {
 		// few configurations, many trees: the same compiler meets different trees, and the same tree again
 		c1, c2 := ch.Choose(ncfg), ch.Choose(ncfg)
@@ -843,7 +846,19 @@ func RunJob(spec *JobSpec, env Env, full bool) *JobResult {
 			j.compile(main, fmt.Sprintf("in%d/compile-shared%02d/%s", pr[0], i, j.cfgs[pr[1]]), progs[pr[0]], j.cfgs[pr[1]], cc)
 		}
 	}
-	// several tasks compile the same trees at once, each with its own compiler
+	// several tasks compile the same trees at once, each with its own compiler - or, in a job out of three, with one
+	// configured compiler per configuration that the tasks share (Compile does not reconfigure the compiler)
+	var rcShared map[int]*compiler.Compiler
+	if spec.SharedRecompile {
+		rcShared = map[int]*compiler.Compiler{}
+		for _, rc := range spec.Recompiles {
+			for _, pr := range rc.Pairs {
+				if rcShared[pr[1]] == nil {
+					rcShared[pr[1]] = j.cfgs[pr[1]].New()
+				}
+			}
+		}
+	}
 	rcSinks := make([]*sink, len(spec.Recompiles))
 	waits = waits[:0]
 	for r := range spec.Recompiles {
@@ -856,7 +871,7 @@ func RunJob(spec *JobSpec, env Env, full bool) *JobResult {
 					continue
 				}
 				env.Yield(sStep)
-				j.compile(rs, fmt.Sprintf("in%d/recompile%d.%d/%s", pr[0], r, i, j.cfgs[pr[1]]), progs[pr[0]], j.cfgs[pr[1]], nil)
+				j.compile(rs, fmt.Sprintf("in%d/recompile%d.%d/%s", pr[0], r, i, j.cfgs[pr[1]]), progs[pr[0]], j.cfgs[pr[1]], rcShared[pr[1]])
 			}
 		}))
 	}
